@@ -94,7 +94,7 @@ func checkC07(c *km.Ctx) {
 		}
 	}
 	if verdictP == nil || userP == nil || pwP == nil {
-		r.AnchorLost("R-C07-2", "verdict / user / password parameters of "+upd.Name())
+		r.AnchorLost("R-C07-2", "verdict / user / password parameters of "+km.NameOf(upd))
 		checkPasswordDispatch(c, s)
 		return
 	}
@@ -810,7 +810,7 @@ func checkLDAPVerdict(c *km.Ctx, s *km.Sem, pa, upd *ssa.Function) {
 						cases, _ := s.ResultCases(k, call)
 						for _, rc := range cases {
 							if answered[rc.Ret.Block()] {
-								okG, found = false, "at "+posOf(c, site)+" the cache can be consulted after "+fl.Name()+" returned from the edge on which the directory answered ("+posOf(c, rc.Ret)+")"
+								okG, found = false, "at "+posOf(c, site)+" the cache can be consulted after "+km.NameOf(fl)+" returned from the edge on which the directory answered ("+posOf(c, rc.Ret)+")"
 							}
 						}
 					}
